@@ -225,6 +225,28 @@ func c05Record(c *Ctx, stream string, g *GenRR) {
 			return "ok"
 		})
 		c.Pred(stream, "generic-form:"+tn, gen, out == "ok", out, "ok", true)
+		// the numeric spelling of class and type in front of the type's own RDATA text (which may hold words that are
+		// themselves type or class mnemonics: NSEC / CSYNC type lists, base64 that reads AAAA, a CAA tag, ...)
+		for _, num := range []string{
+			fmt.Sprintf("%s\t%s\tCLASS%d\tTYPE%d\t%s", f[0], f[1], g.Class, g.Type, f[4]),
+			fmt.Sprintf("%s\t%s\t%s\ttype%d\t%s", f[0], f[1], f[2], g.Type, f[4]),
+		} {
+			out := guard(func() string {
+				rr4, err := dns.NewRR(num)
+				if err != nil || rr4 == nil {
+					return fmt.Sprint("parse-error: ", err)
+				}
+				w4, err := packRRBytes(rr4)
+				if err != nil {
+					return "repack-error: " + err.Error()
+				}
+				if !bytes.Equal(w4, g.Wire) {
+					return "differs: " + hx(w4)
+				}
+				return "ok"
+			})
+			c.Pred(stream, "numeric-spelling:"+tn, num, out == "ok", out, "ok", true)
+		}
 	}
 }
 
@@ -354,6 +376,8 @@ func runC05(c *Ctx) {
 			}
 		}
 	}
+	// the tokeniser under the text: the lexer model against zlexer.Next, token by token
+	lexStream(c, c.Scale(2000, 40000))
 }
 
 func spellingKind(s string) string {
